@@ -85,9 +85,9 @@ CHECKS["C21"] = dict(
         "the integer helpers re-translated from strided_interval.py on every run and are compared result-for-result with the real code. "
         "All other transfer functions (mul, div, mod, and/or/xor, shifts, sign extension, extraction, concat, eq) are NOT modelled: "
         "they are swept directly -- exhaustively at widths 1-2 (1-3 in the thorough tier), sampled above -- and are unsound on the "
-        "pinned tree in 5 operations (and, eq, mul, sdiv, sext); those are known findings identified by (operation, input). Fifteen "
+        "pinned tree in 3 operations (eq, mul, sdiv); those are known findings identified by (operation, input). Seventeen "
         "defects (sub, bitwise_not, zero_extend, n_values, __mod__, pseudo_join, the shift range, both right shifts, lshift, concat, "
-        "cast_low, the two bounds functions, eval of a singleton, __neg__) were repaired.",
+        "cast_low, sign_extend, the sign-bit and, the two bounds functions, eval of a singleton, __neg__) were repaired.",
    design="5/C21", technique="Coq soundness proofs for add/sub/neg/not/zero_extend/the eight order comparisons over translated helpers; exhaustive small-width sweep of the real code for the rest",
    note="Trusted: Coq kernel; tools/py2coq.py; Model/SI.v, Model/SICmp.v, Model/SINot.v, Model/SIZextM.v, Model/SIUnion.v hand-written; sweep oracle = member enumeration from the definition. "
         "Much of this property is decided by testing, not proof; the known-findings list is large (known/C21.txt.gz).")
